@@ -243,16 +243,29 @@ def link_harness(name, variant, vdir, extra_libs=()):
     obj = harness_object(name, variant)
     exe = os.path.join(vdir, name)
     stamp = exe + '.stamp'
-    if os.path.exists(exe) and os.path.exists(stamp) and open(stamp).read() == obj:
+    extra_objs = []
+    if name == 'h_codec':
+        # allocation fault shim: plain C without sanitizer instrumentation (see harness/allocfault.c)
+        src = os.path.join(VERIF, 'harness', 'allocfault.c')
+        aobj = os.path.join(CACHE, 'harness', 'allocfault-%s.o' % file_hash([src], RECIPE_VERSION))
+        if not os.path.exists(aobj):
+            tmp = aobj + '.tmp%d' % os.getpid()
+            r = sh([CC, '-O1', '-g', '-fno-omit-frame-pointer', '-c', src, '-o', tmp])
+            if r.returncode != 0:
+                raise BuildError('allocfault.c failed to compile:\n' + r.stdout[-3000:])
+            os.rename(tmp, aobj)
+        extra_objs.append(aobj)
+    stamp_want = obj + ''.join(extra_objs)
+    if os.path.exists(exe) and os.path.exists(stamp) and open(stamp).read() == stamp_want:
         return exe
     ld = VARIANTS[variant]['ldflags']
     fuzz = ['-fsanitize=fuzzer'] if name.startswith('fuzz_') else []
-    r = sh([CXX] + ld + fuzz + [obj, '-o', exe + '.tmp', '-L', vdir, '-lerasurecode', '-lXorcode', '-Wl,-rpath,' + vdir,
+    r = sh([CXX] + ld + fuzz + [obj] + extra_objs + ['-o', exe + '.tmp', '-L', vdir, '-lerasurecode', '-lXorcode', '-Wl,-rpath,' + vdir,
             '-lrapidcheck', '-ldl', '-lpthread', '-lz'] + list(extra_libs))
     if r.returncode != 0:
         raise BuildError('link %s failed:\n%s' % (name, r.stdout[-4000:]))
     os.rename(exe + '.tmp', exe)
-    open(stamp, 'w').write(obj)
+    open(stamp, 'w').write(stamp_want)
     return exe
 
 
@@ -322,10 +335,10 @@ def plan(pid, tier):
     P['C16'] = lambda: (rc_jobs('h_state', 'c16', 14, 1200 if q else 20000) + sweep_jobs('h_state', 'c16_pairs', 2) + ([] if q else fuzz_jobs('fuzz_api', 'C16', 8, 300)))
     P['C17'] = lambda: (sweep_jobs('h_fault', 'c17_single', 6) + rc_jobs('h_fault', 'c17', 10, 400 if q else 6000))
     P['C19'] = lambda: (rc_jobs('h_codec', 'c19', 6, 1500 if q else 30000) + sweep_jobs('h_codec', 'c19_sweep', 6 if q else 12) + rc_jobs('h_codec', 'c19_inv', 3, 800 if q else 10000) + sweep_jobs('h_codec', 'c19_singular', 3 if q else 8)
-                        + sweep_jobs('h_needed', 'c06_rs_sweep', 2 if q else 8, extra=['--only_isa', '1']))
+                        + sweep_jobs('h_needed', 'c06_rs_sweep', 2 if q else 8, extra=['--only_isa', '1']) + sweep_jobs('h_codec', 'c19_mt', 4))
     P['C18'] = lambda: with_timeout(rc_jobs('t_race', 'c18_tsan', 8, 300 if q else 6000, variant='tsan') + sweep_jobs('h_sched', 'c18_sched_exhaustive', 6 if q else 12)
                         + rc_jobs('h_sched', 'c18_sched', 4, 600 if q else 20000), 240 if q else 3600)
-    P['C20'] = lambda: rc_jobs('h_codec', 'c20', 16, 5000 if q else 60000)
+    P['C20'] = lambda: rc_jobs('h_codec', 'c20', 16, 5000 if q else 60000) + sweep_jobs('h_codec', 'c20_allocfail', 1)
     if pid not in P:
         return None
     return P[pid]()
@@ -351,7 +364,7 @@ RULES = {
     'C17': 'fault enumeration: the back end operation tables are patched with wrappers that fail chosen call numbers (three modes: fail before the work, do the work then report failure, another negative code); for init additionally the OWN init of the back end is run against stand-in plugin handles that make one of its internal steps fail (the j-th symbol lookup, or the RS generator-matrix construction returning NULL), so its own error exits execute. Enumerated: a scripted workload (create, 3 encodes, decode with lost data / lost parity, reconstruct data / parity, 2 fragments_needed, second create, destroy, encode, decode, three naturally failing flat-XOR rebuilds with hd..hd+1 fragments lost) per back end x every call position of init/encode/decode/reconstruct/fragments_needed x 3 modes; generated: random workloads with random fault sets. Oracle: public rc<0 for the faulted call, no cleanup call made and LeakSanitizer clean, immediate retry succeeds with exact results, registry usable, plugin dlopen reference returned. Non-trivial: at least one injected fault was reached.',
     'C19': 'both ISA-L adapters on the clean-room libisal.so.2: enumerated - every (k,m) with k+m<=8 (quick) / 12 (thorough), every erasure set |E|<=m+1, decode + reconstruct of every lost index and one present index, two table encodings of the stand-in (adapter must treat tables as opaque); generated - all shapes to k+m=32 with permutations/duplicates/alignment; injected inversion failures (the stand-in fails the next gf_invert_matrix call): public call must fail, LeakSanitizer clean, retry exact; fragments_needed for the adapters with the C06 oracle. Oracle: exact when the first k surviving generator rows are invertible over GF(2^8) (independent model), error when the survivors have rank < k, either when only another subset is invertible. Non-trivial: a data fragment erased or a lost destination rebuilt; an inversion failure actually injected.',
     'C18': 'tier 1 (ThreadSanitizer): generated workloads of 2..16 threads released by a barrier, each thread running its own create/use/destroy cycles of mixed back ends (concurrent first-ever RS creates are generated on purpose), held instances, and encode/decode/reconstruct/queries on 0..2 shared descriptors, with generated yield paddings; oracle: no TSan report during the workload, every result equals the sequential reference (independent serializer / original data), descriptors of overlapping lifetimes distinct, shared instances intact afterwards. tier 2 (controlled schedules under ASan, guarded yield hooks): see per_mode c18_sched*. Non-trivial: >=2 threads with at least one operation each.',
-    'C20': 'rapidcheck-generated (configuration with CRC32, data, presented multiset, damaged subset: payload bit flips, re-sealed header field edits, unsealed header damage), decode with force=1. Non-trivial: at least one damaged DATA fragment.',
+    'C20': 'rapidcheck-generated (configuration with CRC32, data, presented multiset, damaged subset: payload bit flips, re-sealed header field edits, unsealed header damage), decode with force=1; plus a sweep with allocation faults during the forced decode of stripes containing damaged fragments (every aligned allocation in turn, and the first plain allocation: rc <= 0, and 0 only with the original bytes). Non-trivial: at least one damaged DATA fragment.',
 }
 LEVELS = {'C17': 'fault_enumeration'}
 
@@ -480,7 +493,7 @@ MODE_HARNESS['c18_sched_exhaustive'] = ('h_sched', 'asan')
 MODE_HARNESS['c08_sched'] = ('h_sched', 'asan')
 for _m in ['c07', 'c07_sweep', 'c08', 'c08_sweep', 'c04_matrix', 'c04_parity', 'c04_parity_mt', 'c04_blocking', 'selftest', 'c05_tables', 'c05_encode', 'c05_unsupported']:
     MODE_HARNESS[_m] = ('h_format', 'asan')
-for _m in ['c01_large', 'c02_large', 'c03_large', 'c05_large', 'c05_allocfail', 'c02_allocfail', 'c05_mt', 'c01_mt', 'c19', 'c19_sweep', 'c19_inv', 'c19_singular', 'c05_decode_sweep', 'c01', 'c01_xor_sweep', 'c01_rs_sweep', 'c01_isa_sweep', 'c02', 'c02_subsets', 'c02_band', 'c03', 'c03_xor_sweep', 'c03_rs_sweep', 'c20']:
+for _m in ['c01_large', 'c02_large', 'c03_large', 'c05_large', 'c05_allocfail', 'c02_allocfail', 'c20_allocfail', 'c05_mt', 'c01_mt', 'c19_mt', 'c19', 'c19_sweep', 'c19_inv', 'c19_singular', 'c05_decode_sweep', 'c01', 'c01_xor_sweep', 'c01_rs_sweep', 'c01_isa_sweep', 'c02', 'c02_subsets', 'c02_band', 'c03', 'c03_xor_sweep', 'c03_rs_sweep', 'c20']:
     MODE_HARNESS[_m] = ('h_codec', 'asan')
 
 
